@@ -350,6 +350,23 @@ pub fn drive(args: &[String]) {
         let vmax = [3i64, 15, 200][rng.below(3) as usize];
         // weights across many orders of magnitude: one scenario in four uses weights k * 2^-wexp with wexp in {40, 64, 200}
         let wexp = if sci % 4 == 3 { [40i64, 64, 200][rng.below(3) as usize] } else { 4 };
+        if sci == 1 || sci == 2 {
+            // many centroids: delta 1000 and several hundred distinct values, so that nothing (sci 1) or little (sci 2)
+            // is fused and the digest holds far more than a hundred centroids; aggregates must stay exact
+            let (mb, nvals) = if sci == 1 { (0u64, 700u64) } else { (50u64, 1500u64) };
+            let cfg = json!({"scale": scale, "dn": 1000, "dd": 1, "mb": mb, "qd": 8, "xlo2": -2, "xn": 45, "wexp": 4});
+            let mut steps: Vec<Value> = vec![];
+            for i in 0..nvals {
+                let x = (i * 7919) % nvals; // a permutation of 0..nvals (7919 is prime and does not divide nvals)
+                let record = i % 53 == 0 || i + 1 == nvals;
+                steps.push(json!({"obj": "a", "op": {"name":"ins","x": x, "w16": if sci == 1 { 16 } else { [16i64, 32, 48][(i % 3) as usize] }, "skip": !record}}));
+                if i % 211 == 210 {
+                    steps.push(json!({"obj": "a", "op": {"name":"read"}}));
+                }
+            }
+            out.put(&json!({"sc": sci, "cfg": cfg, "steps": steps}));
+            continue;
+        }
         let cfg = json!({"scale": scale, "dn": dn, "dd": dd, "mb": mb, "qd": 8, "xlo2": -2, "xn": (2 * vmax + 5).min(45), "wexp": wexp});
         let mut steps: Vec<Value> = vec![];
         let n_ops = 20 + rng.below(60);
